@@ -58,6 +58,8 @@ type Case struct {
 	// key format / fixed-size helper cases: index of the format, number of values
 	Fmt   int `json:"fmt,omitempty"`
 	NVals int `json:"nvals,omitempty"`
+	// roothash evidence cases: the two commitments
+	Ev []evCommit `json:"ev,omitempty"`
 	// connection state machine stream
 	Script []connOp `json:"script,omitempty"`
 	// search stream
@@ -318,6 +320,8 @@ func runModelCase(c Case) (o outcome) {
 		return runEnumCase(c)
 	case "sigstruct":
 		return runSigstructCase(c)
+	case "evidence":
+		return runEvidenceCase(c)
 	}
 	data := unhex(c.Data)
 	var in, out string
@@ -972,7 +976,7 @@ func main() {
 
 func runModel(seed uint64, n int, out string, rc *Case) {
 	initKeyFormats()
-	hdr := "From Verif Require Import Lib.Base Decode.GoSlice Decode.Node Decode.ProofEntries Decode.Quote Decode.KeyFormat Decode.Misc Decode.Cbor Decode.More Decode.Cases.\n"
+	hdr := "From Verif Require Import Lib.Base Decode.GoSlice Decode.Node Decode.ProofEntries Decode.Quote Decode.KeyFormat Decode.Misc Decode.Cbor Decode.More Decode.Cases.\nFrom Verif Require Decode.Evidence.\n"
 	wb := coqout.NewWriter(out, hdr, "run_case", "cout_eqb", 150)
 	sum := coqout.NewSummary("per decoder (Depth/Key/LeafNode/InternalNode.SizedUnmarshalBinary, node.UnmarshalBinary, verifyProof walk via hook, VerifyProof): 30% valid encodings made by the real marshalers (full, compact v0, compact v1), 25% length-field mutants (0, +-1, max, len, +k, 2^31, random), 15% truncations at field boundaries, 18% generic mutations (bit flips, kind bytes, splices, appended garbage), 12% random bytes; proof entry lists: random pre-order subtrees for v0/v1, chains of depth 126..200, list mutations (drop/extra/empty/kind/truncate/swap/unsupported version); encoders on random nodes. distinct = distinct (kind, input); non-trivial = the real decoder accepted the input (Ok) or the real encoder produced bytes")
 	var cases []Case
@@ -980,7 +984,7 @@ func runModel(seed uint64, n int, out string, rc *Case) {
 		cases = []Case{*rc}
 	} else {
 		r := prng.New(seed)
-		kinds := []string{"depth", "key", "leaf", "leaf", "inode", "inode", "inode", "node", "node", "walk", "walk", "proof", "proof", "enc", "quote", "quote", "quote", "keyformat", "keyformat", "fixed", "iasquote", "chunk", "cbor", "cbor", "cbor", "more", "more", "more", "more", "more"}
+		kinds := []string{"depth", "key", "leaf", "leaf", "inode", "inode", "inode", "node", "node", "walk", "walk", "proof", "proof", "enc", "quote", "quote", "quote", "keyformat", "keyformat", "fixed", "iasquote", "chunk", "cbor", "cbor", "cbor", "more", "more", "more", "more", "more", "evidence", "evidence"}
 		loadQuoteSeeds()
 		// fixed boundary cases first
 		for _, h := range []string{"", "00", "01", "0140", "014000aabb", "01000002", "0100000200", "00010007ffffffff0102", "000000000000", "0000000000000000"} {
@@ -1001,6 +1005,7 @@ func runModel(seed uint64, n int, out string, rc *Case) {
 			}
 		}
 		cases = append(cases, morePrefixCases(r.Fork())...)
+		cases = append(cases, evidenceSystematic()...)
 		for i := 0; i < n; i++ {
 			rr := r.Fork()
 			k := kinds[rr.Intn(len(kinds))]
@@ -1023,6 +1028,8 @@ func runModel(seed uint64, n int, out string, rc *Case) {
 				cases = append(cases, genCborCase(rr))
 			case "more":
 				cases = append(cases, genMoreCase(rr))
+			case "evidence":
+				cases = append(cases, genEvidenceCase(rr))
 			default:
 				cases = append(cases, genDecodeCase(rr, k))
 			}
@@ -1033,7 +1040,8 @@ func runModel(seed uint64, n int, out string, rc *Case) {
 	for _, c := range cases {
 		o := runModelCase(c)
 		sum.Evaluations++
-		key := c.Kind + ":" + c.Data + fmt.Sprint(c.Fmt, c.NVals, c.Trailing, c.V, c.BadRoot, c.Key, c.Value, c.Label, c.Lbl, c.Mode) + strings.Join(func() []string {
+		evj, _ := json.Marshal(c.Ev)
+		key := c.Kind + ":" + c.Data + string(evj) + fmt.Sprint(len(c.Ev), c.Fmt, c.NVals, c.Trailing, c.V, c.BadRoot, c.Key, c.Value, c.Label, c.Lbl, c.Mode) + strings.Join(func() []string {
 			var s []string
 			for _, e := range c.Entries {
 				if e == nil {
